@@ -3,6 +3,8 @@ import math
 import types
 import warnings
 
+import sys
+
 import numpy as np
 
 from .. import common, gen_all, gen_formulas, fits
@@ -315,4 +317,4 @@ def check(run):
 
 
 def replay(rec):
-    return True
+    return common.replay_by_rerun(sys.modules[__name__], rec)
